@@ -446,6 +446,7 @@ def judge(pr, items, units, crashed=None):
     cur_S, cur_E = [], []
     ticks_seen = 0
     eps = {"dispatched": 0, "boundary": 0}
+    in_failure = False
     call_ct = None
     finished = False
     raised = False
@@ -507,6 +508,10 @@ def judge(pr, items, units, crashed=None):
             asked_s.add(it[1])
         elif k == "dey":
             asked_e.add(it[1])
+        elif k == "failure":
+            in_failure = True
+        elif k == "failure-done":
+            in_failure = False
         elif k == "pre-dsy":
             pend_s.add(it[1])
         elif k == "pre-dey":
@@ -573,7 +578,10 @@ def judge(pr, items, units, crashed=None):
         elif k == "exception":
             raised = True
         elif k == "hang":
-            viol("exec:hang", "tick %d did not return within the time limit" % (ticks_seen + 1))
+            # where the process was when the CPU limit expired: inside executor::failure() (its re-solve), or inside tick()
+            where = "in-failure" if in_failure else "in-tick" if in_tick else "elsewhere"
+            viol("exec:hang:" + where, "%s did not return within the time limit (after %d ticks)" % (
+                "failure()" if in_failure else "tick %d" % (ticks_seen + 1), ticks_seen))
         elif k == "?":
             viol("exec:unparsed", it[1])
     status = "done" if any(i[0] == "done" for i in items) else "raised" if any(i[0] == "exception" for i in items) else "crashed"
